@@ -127,7 +127,7 @@ def run(ctx):
                        'reference distinguishes values): for every box the verdict, the code-point set and the number of bytes consumed are compared with the RFC 3629 table. '
                        'All 2^(8*len) inputs of each covered length are covered by construction; nothing is executed.')
     ctx.units = ['witness/c14_text.cpp']
-    P = model.Program(build.extract([VERIF + '/witness/c14_text.cpp'], include_re='^/repo/(private/(utf_iterator|encoding_validators)\\.h|booster/booster/locale/utf\\.h)'))
+    P = model.Program(build.extract([VERIF + '/witness/c14_text.cpp'], include_re='^/repo/(private/(utf_iterator|encoding_validators)\\.h|booster/booster/locale/(utf|encoding_utf)\\.h)'))
     ctx.stats['functions'] = len(P.fns)
     R1 = ctx.rule('C14.R1', 'UTF-8 decoders are exact: verdict, code point and length equal RFC 3629 on every box (lengths 0-4, html on/off, both decoders)')
     nx = P.fn('cppcms::utf8::next')
@@ -369,6 +369,97 @@ def run(ctx):
             ctx.check(not fails, R5, 'filter_utf8:len=%d:repl=%02X' % (L, repl), ('on bytes %s: %s' % (' '.join('%02X-%02X' % b for b in fails[0][0]), fails[0][1])) if fails else '', fu.where,
                       detail={'boxes': nb, 'counterexamples': [(' '.join('%02X-%02X' % b for b in bx), w) for bx, w in fails[:4]]})
     ctx.floor(R5, 6)
+
+    # ---------------- R6 the support library's UTF-8 -> UTF-8 conversion (conv::utf_to_utf<char,char>) as validator (stop) and filter (skip)
+    R6 = ctx.rule('C14.R6', 'booster utf_to_utf<char,char>: with `stop` it throws exactly on ill-formed or truncated input; with `skip` the result is always well-formed UTF-8 and equals the input when the input is well-formed (E3); '
+                            'the charset fall-back of encoding::valid converts with `stop`')
+    u2u = [f for f in P.fns.values() if f.bname == 'booster::locale::conv::utf_to_utf' and len(f.params) == 3 and f.entry is not None and 'const char *' in f.id]
+    ctx.require(len(u2u) >= 1, 'C14.R6: utf_to_utf<char,char>(begin,end,how) not instantiated by the witness unit')
+    u2u = u2u[0]
+    from vlib.absint import Out as _Out
+
+    def whole_ok(box):
+        """('split', idx) | True | False: is every string of the box well-formed (same verdict over the box)"""
+        i = 0
+        while i < len(box):
+            sp = spec_utf8(box[i:], False)
+            if sp[0] == 'split':
+                return ('split', i + sp[1])
+            if sp[0] != 'ok':
+                return False
+            i += sp[4]
+        return True
+    for L in ((0, 1, 2, 3) if ctx.tier == 'thorough' else (0, 1, 2)):
+        for how in (1, 0):
+            fails = []
+            nb = 0
+
+            def runu(it, L=L, how=how):
+                arr = Arr([it.inbyte(i) for i in range(L)] + [AV.const(0)], 'input')
+                return it.call_fn(u2u, [PV(arr, 0), PV(arr, L), AV.const(how)])
+            pending = [[(0, 255)] * L]
+            while pending:
+                box = pending.pop()
+                w = whole_ok(box)
+                if isinstance(w, tuple):
+                    idx = w[1]
+                    lo, hi = box[idx]
+                    mid = absint._aligned_mid(lo, hi)
+                    b1, b2 = list(box), list(box)
+                    b1[idx] = (lo, mid - 1)
+                    b2[idx] = (mid, hi)
+                    pending += [b2, b1]
+                    continue
+                for (bx, r, it) in absint.explore(P, runu, [box], max_boxes=2000000):
+                    w2 = whole_ok(bx)
+                    if isinstance(w2, tuple):
+                        pending.append(bx)
+                        continue
+                    nb += 1
+                    threw = isinstance(r, tuple) and r and r[0] == 'throw'
+                    if how == 1:
+                        if threw != (not w2):
+                            fails.append((bx, 'stop: input is %s but conversion %s' % ('well-formed' if w2 else 'ill-formed', 'threw' if threw else 'returned normally')))
+                        if threw:
+                            continue
+                    if threw or not isinstance(r, _Out):
+                        fails.append((bx, 'skip: no string returned (%r)' % (r,)))
+                        continue
+                    got = [(min(x & 0xFF for x in (e.vals if e.vals is not None else (e.lo, e.hi))), max(x & 0xFF for x in (e.vals if e.vals is not None else (e.lo, e.hi)))) if (e.vals is not None or (e.lo >= 0) == (e.hi >= 0)) else (0, 255) for e in r.items]
+                    if w2:
+                        if got != [tuple(b) for b in bx]:
+                            fails.append((bx, 'well-formed input changed: %s' % got))
+                    else:
+                        wo = whole_ok(got)
+                        if wo is not True:
+                            fails.append((bx, 'filtered output %s is not (provably) well-formed UTF-8' % (['%02X-%02X' % g for g in got],)))
+            ctx.check(not fails, R6, 'utf_to_utf<char,char>:%s:len=%d' % ('stop' if how else 'skip', L), ('on bytes %s: %s' % (' '.join('%02X-%02X' % tuple(b) for b in fails[0][0]), fails[0][1])) if fails else '', u2u.where,
+                      detail={'boxes': nb, 'counterexamples': [(' '.join('%02X-%02X' % tuple(b) for b in bx), w_) for bx, w_ in fails[:4]]})
+    # the generic (iconv / ICU) fall-back of encoding::valid must let conversion errors surface
+    vf = [f for f in PE.by_bname.get('cppcms::encoding::valid', []) if len(f.params) == 4 and 'basic_string' in f.id]
+    ctx.require(len(vf) >= 1, 'C14.R6: encoding::valid(encoding,begin,end,count) not found')
+    vf = vf[0]
+    CONV = ('booster::locale::conv::between', 'booster::locale::conv::to_utf', 'booster::locale::conv::from_utf', 'booster::locale::conv::utf_to_utf')
+
+    def conv_calls(f, depth=2, seen=None):
+        seen = seen if seen is not None else set()
+        out = []
+        for i in f.calls():
+            bc = f.bcallee(i) or ''
+            if bc in CONV:
+                out.append((f, i))
+            elif depth > 0 and bc.startswith('cppcms::encoding::') and f.N(i).get('callee') in PE.fns and f.N(i)['callee'] not in seen:
+                seen.add(f.N(i)['callee'])
+                out += conv_calls(PE.fns[f.N(i)['callee']], depth - 1, seen)
+        return out
+    stopv = [e['value'] for en in PE.enums.values() if en['name'].endswith('conv::method_type') for e in en['enumerators'] if e['name'].endswith('stop')]
+    ctx.require(stopv, 'C14.R6: booster::locale::conv::method_type::stop not found')
+    cc = conv_calls(vf)
+    ctx.check(bool(cc), R6, 'encoding::valid:fallback-converts', 'no charset conversion on the fall-back path of valid()', vf.where)
+    for k, (f, i) in enumerate(cc):
+        hows = [f.const_value(a) for a in f.args(i) if 'method_type' in (f.type_of(f.N(a)) or '')]
+        ctx.check(hows == [stopv[0]], R6, 'encoding::valid:conversion#%d:method-is-stop' % k, 'the fall-back conversion skips invalid input instead of stopping (method %s): malformed text is dropped and the rest accepted' % hows, f.loc(i))
+    ctx.floor(R6, 8)
     ctx.trust('RFC 3629 table embedded in rules/C14.py; interval/stride arithmetic of vlib/absint.py')
 
 
